@@ -15,9 +15,15 @@
     xml_layer_tree xml_tree_wellformed xml_batching_irrelevant
     xml_errors_are_parseerror_with_line xml_undefined_entity_position
     xml_html_entity_is_text xml_unencodable_chunk_escapes
+    html_stream_is_forest html_text_is_plain xml_text_is_plain
+    endtag_closes_to_innermost_match endtag_without_match_closes_all void_endtag_ignored
+    xml_layer_tree_merged events_determine_tree
+    html_nothing_lost xml_events_are_callbacks
 -/
 import Genshi.Lemmas.ParseHtml
 import Genshi.Lemmas.ParseXml
+import Genshi.Lemmas.ParseTree
+import Genshi.Lemmas.ParseContent
 namespace Genshi.Props.C07
 open Genshi Genshi.Parse
 
@@ -98,6 +104,60 @@ theorem html_batching_irrelevant (env : Env) (reads reads' : List HtmlRead)
     | none => rfl
     | some e => rw [hh] at hn; simp at hn
   rw [a3 hnone, b3 hnone]
+
+/-- "delivers a well-formed event stream" as a tree statement: the stream of a parse that finishes
+    is the flattening of exactly one forest of elements whose leaves are the non START/END events. -/
+theorem html_stream_is_forest (env : Env) (reads : List HtmlRead) (close : List (Item HtmlCb))
+    (s : Stream) (h : htmlParse env reads close = (s, none)) :
+    ∃ ns, (okList ns = true ∧ flattenList ns = s) ∧
+      ∀ ms, okList ms = true → flattenList ms = s → ms = ns :=
+  wellNested_unique_forest s (html_events_wellnested env reads close s h).1
+
+/-- documented types: TEXT data is a plain `str` (never `Markup`), also in what is delivered before a failure -/
+theorem html_text_is_plain (env : Env) (reads : List HtmlRead) (close : List (Item HtmlCb)) (t : Str) (b : Bool)
+    (h : Event.text t b ∈ (htmlParse env reads close).1) : b = false :=
+  parse_text_plain _ _ _ _ _ t b h
+
+/-- what an end tag does (the surprising but well-nested rule): `</tag>` closes every open element
+    up to and including the innermost one whose name equals `tag` ignoring case … -/
+theorem endtag_closes_to_innermost_match (env : Env) (tag : Str) (hv : env.void.contains tag = false)
+    (pre : List Str) (t : Str) (post : List Str)
+    (hpre : ∀ x ∈ pre, env.lower x ≠ env.lower tag) (ht : env.lower t = env.lower tag) :
+    htmlStep env (pre ++ t :: post) (.endtag tag) =
+      .ok (post, (pre ++ [t]).map fun x => Event.end_ (mkQName x)) := by
+  simp only [htmlStep, handleEndtag, hv, Bool.false_eq_true, ↓reduceIte]
+  rw [popTo_match env tag pre t post hpre ht]
+
+/-- … and **everything** that is open when no open element has that name -/
+theorem endtag_without_match_closes_all (env : Env) (tag : Str) (hv : env.void.contains tag = false)
+    (o : List Str) (h : ∀ x ∈ o, env.lower x ≠ env.lower tag) :
+    htmlStep env o (.endtag tag) = .ok ([], o.map fun x => Event.end_ (mkQName x)) := by
+  simp only [htmlStep, handleEndtag, hv, Bool.false_eq_true, ↓reduceIte]
+  rw [popTo_nomatch env tag o h]
+
+/-- the end tag of a void element is ignored -/
+theorem void_endtag_ignored (env : Env) (tag : Str) (hv : env.void.contains tag = true) (o : List Str) :
+    htmlStep env o (.endtag tag) = .ok (o, []) := by
+  simp only [htmlStep, handleEndtag, hv, ↓reduceIte]
+
+/-- **Nothing is lost, duplicated or reordered** — at no batch boundary, by no end tag, not at end of
+    input: the character data of the delivered stream is the concatenation of the character data of
+    the callbacks, and its START / COMMENT / PI events are, in order, those of the callbacks. -/
+theorem html_nothing_lost (env : Env) (reads : List HtmlRead) (close : List (Item HtmlCb))
+    (s : Stream) (h : htmlParse env reads close = (s, none)) :
+    textOf s = (htmlItems reads close).flatMap itemText ∧
+    mainEvents s = (htmlItems reads close).flatMap (itemMain env) := by
+  obtain ⟨h1, _, h3⟩ := parse_vs_eager (htmlLayer env) htmlHandler [] (reads.map HtmlRead.toRead) close
+  simp only [htmlParse] at h
+  rw [h] at h1 h3
+  simp only at h1 h3
+  have hnone : (eager (htmlLayer env) [] ((reads.map HtmlRead.toRead).flatMap Read.toItems ++ close)).2 = none := by
+    cases hh : (eager (htmlLayer env) [] ((reads.map HtmlRead.toRead).flatMap Read.toItems ++ close)).2 with
+    | none => rfl
+    | some e => rw [hh] at h1; simp at h1
+  obtain ⟨c1, c2⟩ := eager_html_content env _ [] hnone
+  rw [h3 hnone, textOf_coalesce, mainEvents_coalesce]
+  exact ⟨c1, c2⟩
 
 /-- every exception the environment can raise below the layer is an `Exception` -/
 def OnlyExceptions (env : Env) (reads : List HtmlRead) (close : List (Item HtmlCb)) : Prop :=
@@ -200,6 +260,33 @@ theorem xml_tree_wellformed (doc : List XNode) (reads : List (List (Item XmlCb))
   simp only [coalesce]
   rw [balance_coalesceGo]
   exact wellNested_flattenList _ (toNodesList_ok doc)
+
+/-- the same with the merging done on the tree: the stream is the flattening of the document forest
+    in which each maximal run of character data is one text node -/
+theorem xml_layer_tree_merged (doc : List XNode) (reads : List (List (Item XmlCb))) (close : List (Item XmlCb))
+    (h : reads.flatten ++ close = (callbacksList doc).map Item.cb) :
+    xmlParse (reads.map XmlRead.chunk) close = (flattenList (mergeForest (toNodesList doc)), none) := by
+  rw [xml_layer_tree doc reads close h, coalesce_flattenList]
+
+/-- comparing event streams is comparing trees: two well-formed forests with the same events are equal -/
+theorem events_determine_tree (a b : List Node) (ha : okList a = true) (hb : okList b = true)
+    (h : flattenList a = flattenList b) : a = b :=
+  flattenList_inj a b ha hb h
+
+/-- for **every** sequence of Expat callbacks that does not fail (tree or not): the delivered stream
+    is what the handler calls enqueue, in order, with adjacent text merged — whatever the batches -/
+theorem xml_events_are_callbacks (reads : List XmlRead) (close : List (Item XmlCb))
+    (h : firstFailure ((reads.map XmlRead.toRead).flatMap Read.toItems ++ close) = none) :
+    xmlParse reads close = (coalesce (((reads.map XmlRead.toRead).flatMap Read.toItems ++ close).flatMap xItemEvents), none) := by
+  obtain ⟨a1, _, a3⟩ := parse_vs_eager xmlLayer xmlHandler () (reads.map XmlRead.toRead) close
+  rw [eager_xml_events _ h] at a1 a3
+  simp only [Option.map_none] at a1 a3
+  unfold xmlParse
+  exact Prod.ext (a3 trivial) a1
+
+theorem xml_text_is_plain (reads : List XmlRead) (close : List (Item XmlCb)) (t : Str) (b : Bool)
+    (h : Event.text t b ∈ (xmlParse reads close).1) : b = false :=
+  parse_text_plain _ _ _ _ _ t b h
 
 def xmlItems (reads : List XmlRead) (close : List (Item XmlCb)) : List (Item XmlCb) :=
   (reads.map XmlRead.toRead).flatMap Read.toItems ++ close
@@ -317,5 +404,15 @@ example :
       ([.startNs [] ['u'], .start ⟨['u'], ['a']⟩ [(⟨[], ['i']⟩, ['1'])], .text ['x','y'] false, .comment ['c'],
         .start ⟨[], ['b']⟩ [], .end_ ⟨[], ['b']⟩, .end_ ⟨['u'], ['a']⟩, .endNs []], none) := by
   decide
+
+/-- `</B>` with `p` and `b` open above an `a`: hypotheses of `endtag_closes_to_innermost_match` -/
+example :
+    let env : Env := ⟨fun v => .ok v, asciiLower, Genshi.Gen.Output.parserEmptyElems⟩
+    htmlStep env [['p'], ['b'], ['a']] (.endtag ['B']) =
+      .ok ([['a']], [.end_ ⟨[], ['p']⟩, .end_ ⟨[], ['b']⟩]) := by rfl
+
+/-- merging on the tree: two text pieces and a CDATA section next to each other -/
+example : flattenList (mergeForest (toNodesList [XNode.elem ['a'] [] [] [.chars [['x'], ['y']], .chars [['z']]]])) =
+    [.start ⟨[], ['a']⟩ [], .text ['x', 'y', 'z'] false, .end_ ⟨[], ['a']⟩] := by decide
 
 end Genshi.Props.C07
